@@ -148,9 +148,13 @@ static void write_vector_into_sqltable(sqlite3 *db, char *tabname, dvector *vect
     xfree(sql);
 
     for (i = 0; i < vect->size; i++){
-        lenght = snprintf(NULL, 0, "INSERT INTO %s (value) VALUES (%.18f);", tabname, vect->data[i]);
+        /* the value is BOUND to the statement (a double, stored exactly): printed into
+         * the statement as fixed-point text it lost every digit beyond the 18th decimal,
+         * i.e. all of them for values below 1e-18 and half of them at 1e-9
+         */
+        lenght = snprintf(NULL, 0, "INSERT INTO %s (value) VALUES (?);", tabname);
         sql = xmalloc(lenght+1);
-        snprintf(sql, lenght+1, "INSERT INTO %s (value) VALUES (%.18f);", tabname, vect->data[i]);
+        snprintf(sql, lenght+1, "INSERT INTO %s (value) VALUES (?);", tabname);
         #ifdef DEBUG
         printf("%s\n", sql);
         #endif
